@@ -1196,10 +1196,9 @@ class SCFGIO:
                 raise TypeError("Block type not found.")
 
         seen = set()
-        q: Set[Tuple[str, BasicBlock]] = set()
-        # Order of elements doesn't matter since they're going to
-        # be sorted at the end.
-        q.update(scfg.graph.items())
+        # A list is used as the work list, since blocks that hold a dict or a
+        # SCFG are not hashable.
+        q: List[Tuple[str, BasicBlock]] = list(scfg.graph.items())
 
         while q:
             key, value = q.pop()
@@ -1212,7 +1211,7 @@ class SCFGIO:
             if isinstance(value, RegionBlock):
                 assert value.subregion is not None
                 assert value.parent_region is not None
-                q.update(value.subregion.graph.items())
+                q.extend(value.subregion.graph.items())
                 blocks[key]["kind"] = value.kind
                 blocks[key]["contains"] = sorted(
                     [idx.name for idx in value.subregion.graph.values()]
@@ -1228,8 +1227,10 @@ class SCFGIO:
             elif isinstance(value, PythonBytecodeBlock):
                 blocks[key]["begin"] = value.begin
                 blocks[key]["end"] = value.end
-            edges[key] = sorted([i for i in value._jump_targets])
-            backedges[key] = sorted([i for i in value.backedges])
+            # The order of the jump targets encodes the branch decision and
+            # must be retained.
+            edges[key] = [i for i in value._jump_targets]
+            backedges[key] = [i for i in value.backedges]
 
         graph_dict = {"blocks": blocks, "edges": edges, "backedges": backedges}
 
